@@ -3,6 +3,10 @@
 import json, subprocess
 
 CHECKS = {
+ "C07": ("exploration",
+         "Key generation driven from the RNG seam (one stream per run, first octets of fill_bytes biased to 0x00/0xFF in half of the runs) and the clock seam (extremes and jumps) over both key versions, ten primary algorithms, thirteen subkey kinds incl. signing subkeys, locked/unlocked primaries and subkeys, 0..3 user ids, preference lists; per key: verify_bindings (secret and public), embedded back signatures, binary and armored export through sink schedules and import through source schedules (equality, fingerprint, key id), flags/preferences/features read back, every signing key signs and verifies (and does not verify under another key), every encryption subkey decrypts SEIPDv1 and SEIPDv2 messages.",
+         "5 (C07)", "builder-refused shapes skipped; RSA/DSA sampled far less than the cheap algorithms",
+         "deterministic simulation with RNG and clock fault injection"),
  "C08": ("exploration",
          "Lock -> (store through sink schedules -> parse through source schedules) -> unlock cycles over real secret key packets of all pool algorithms, both key versions, CFB and AEAD (3 modes) protection, 9 ciphers, simple/salted/iterated/Argon2 specifiers, password classes incl. empty, non-UTF-8 and 200-byte, RNG-seam IV/nonce/salt with biased octets; wrong passwords; bit flips over S2K parameters, IV/nonce, blob and (AEAD) public fields; usage-255 and legacy-cipher-octet keys produced by a legacy-peer stub. Oracle: right password restores byte-identical key material, anything else is Err.",
          "5 (C08)", "legacy-peer stub uses cfb-mode/aes/md-5 crates and rpgp's own S2K derive_key; 16-bit checksum cases only asserted where they cannot collide",
